@@ -38,7 +38,7 @@ func genC01(seed uint64, tier string) C01Cfg {
 	c := C01Cfg{N: n, T: r.Range(2, n), Late: -1}
 	c.Deploy = DeployCfg{IDs: ids, Silent: r.Bool(0.5), Threshold: c.T - 1, Backend: "bls", PickUnsorted: r.Bool(0.3)}
 	c.Strategy = pickStr(r, netsim.Strategies)
-	c.Serial = r.Bool(0.6)
+	c.Serial = r.Bool(0.8)
 	if r.Bool(0.5) {
 		c.Late = r.Intn(n)
 	}
